@@ -274,5 +274,8 @@ fn pair_bfs(ctx: &mut Ctx, layout: usize, mode: HandleControl) {
         json!({"engine": "A (own BFS + stateright cross-check)", "key_sequences": sys.alphabet.iter().filter(|a| a.2).count(), "noise_sequences": sys.alphabet.iter().filter(|a| !a.2).count(), "product_states": g.states.len(), "transitions": g.edges, "max_depth": g.max_depth,
                "stateright_unique_states": sr.unique_states, "violating_edges": g.bads.len()}),
     );
+    if g.capped {
+        ctx.cap_hit("pair bfs", 50_000);
+    }
     ctx.expect(g.states.len() >= 512, "pair BFS reaches all 512 modifier states");
 }
